@@ -57,7 +57,7 @@ def dwarf_value_laws(ctx, h):
     try:
         files = []
         for k in range(3 if ctx.tier == "quick" else 25):
-            desc, path = fs.make(rng, max_units=2, min_units=1, max_dies=10, rich_ops=0.6, loclists=0.5, extras=0.2)
+            desc, path = fs.make(rng, max_units=3, min_units=2 if k % 2 else 1, max_dies=10, rich_ops=0.6, loclists=0.5, extras=0.2)
             files.append(path)
         o = elfsym.gen_symobj(rng, elfsym.TARGETS[rng.randrange(len(elfsym.TARGETS))])
         sp = os.path.join(fs.dir, "sym.o")
@@ -89,7 +89,16 @@ def dwarf_value_laws(ctx, h):
                     else:
                         laws.append(("two %ss that show different things are different" % what,
                                      "?([%s] (|L| L elem ?(pos < 14) (|X| L elem ?(pos < 14) (|Y| ?(X %s != Y %s) ?(X == Y)))))" % (P, obs, obs)))
+                if what == "raw DIE":
+                    # the same DIE reached through an import and without one (a cooked copy of the raw DIE): the one without a
+                    # path stands for every occurrence — equal both ways round, whichever side carries the path
+                    laws.append(("a DIE reached through an import equals the same DIE without an import path, both ways round",
+                                 "?([entry] (|L| [raw entry cooked] (|M| L elem ?(pos < 60) (|X| M elem ?(offset == X offset) "
+                                 "(|Y| ([X Y ?eq 1] length != 1) || ([Y X ?eq 1] length != 1))))))"))
                 recs, crashes = fs.query(path, [q for _, q in laws])
+                if crashes:
+                    ctx.violation("the library crashed comparing %ss of %s: %s" % (what, os.path.basename(path), crashes[0][1][-200:]),
+                                  {"stream": "C09-dwarf-values", "input": fs.inp(None, path, laws[crashes[0][0]][1] if crashes[0][0] < len(laws) else None)})
                 for (nm, q), r in zip(laws, recs):
                     if r.err and r.err.startswith("compile"):
                         raise RuntimeError("law query does not compile: %s: %s" % (q, r.err))
